@@ -421,6 +421,10 @@ def run(S):
     rule_rdr(S, la)
     rule_wait(S, la)
     rule_nul(S)
+    # a reader that follows a link it did not validate can end up in a dead node whose version tells it to retry
+    # for ever (shared with C01)
+    from checks.C01 import rule_var
+    rule_var(S)
     # the cursor's stale-root handling must not retry without progress on an emptied tree (shared with C10)
     from checks.C10 import rule_end0
     rule_end0(S)
